@@ -5,6 +5,7 @@ V = os.path.dirname(os.path.dirname(os.path.abspath(__file__)))
 GO = "/root/go/pkg/mod/golang.org/toolchain@v0.0.1-go1.25.0.linux-amd64/bin/go"
 TECH = "deterministic simulation with fault injection: "
 checks = {
+ "C17": ("exploration", "seeded search over interleavings of 2..6 tasks garbling, evaluating, computing and releasing on one shared circuit, with scheduling points at the lazy pool creation, every pool operation (simulated pool: any pooled scratch, a new one, or dropped items) and the loop heads inside Garble/Eval/Compute; oracle = truth table, held garblings unchanged, bit-identity with the same calls run alone; data-race freedom by a companion pass of the same operation lists on real goroutines under the Go race detector", "5 C17", "a serialising scheduler cannot observe data races, so that clause rests on the race-detector companion (happens-before based, not replayable); trusts the simulated sync.Pool/atomic models", TECH + "seeded interleaving search with yields inside Garble/Eval + race-detector companion on identical operation lists"),
  "C08": ("exploration", "seeded search over programs (multi-import crafted, testsuite, examples, generated), parameter sets, map iteration orders of every map range in the compile path (owned by the simulator in build variant c08), compilation histories, reused and fresh compiler and Params values, and a separate worker process; oracle = byte identity of circuit, Bristol text, SSA listing and I/O description across the jobs", "5 C08", "trusts the map-range rewrite (a refinement of the orders the Go specification allows); nondeterminism outside map iteration and compilation history (there is no goroutine in the compiler) is covered only by the separate-process jobs", TECH + "simulator-owned map iteration order and compilation histories, byte-identity oracle across jobs and processes"),
  "C14": ("fault_enumeration", "round trips of generated circuits with rich I/O signatures through a simulated disk and short-reading readers, and dense windows of truncation lengths and bit flips plus extension, splice and boundary-value faults on valid files of both formats, each parse judged under the property's precondition; positions are enumerated in windows per seed, not exhaustively per file", "5 C14", "trusts the simulated disk/reader model and the harness's own scan of the file layouts for the declared-size precondition; the 20 s hang clause is the only wall-clock verdict", TECH + "stored-byte fault enumeration on a simulated disk with short reads, well-formedness oracle"),
  "C04": ("exploration", "transcript monitor over real whole-circuit sessions, streaming sessions and sha2pc round messages: every 16-byte window at every byte offset of the complete garbler->evaluator stream is compared against the offset R, learned from the wires handed to the OT layer or by differential replay of the identical run; sampled over circuits, programs, inputs and randomness", "5 C04", "sound only for labels that behave like random 128-bit strings (seeded AES-CTR DRBG; accidental hit chance about |W|^2/2^128); the sha2pc OutputHints leak is a listed known finding, matched by its exact location", TECH + "recorded transcripts of simulated sessions + differential replay, window-set monitor"),
